@@ -18,6 +18,7 @@ func Subtract(base, subtraction Field) Field {
 	newDomain.EncapsulateBounds(subtraction.Domain)
 
 	for attr, f := range subtraction.Float1Functions {
+		f := f // one closure per attribute, not one shared loop variable
 		baseFun := base.Float1Functions[attr]
 		float1Functions[attr] = func(v vector3.Float64) float64 {
 			return math.Max(baseFun(v), -f(v))
